@@ -50,7 +50,7 @@ VARIANTS = [
     V("C02", "neg-params-renamed", CT, ("def logical_not(x: Value) -> Value:", "def logical_not(x: Value, *, _unused: int = 0) -> Value:"), None),
     # ---- C04 ------------------------------------------------------------------------------
     V("C04", "member-index-no-keyerror", EV, ("        except KeyError as ex:\n            self.logger.debug(\"%s(%s, %s) --> %s\", func.__name__, member, index, ex)\n            value = CELEvalError(\"no such key\", ex.__class__, ex.args, tree=tree)\n            value.__cause__ = ex\n            return value\n", ""), "Evaluator.member_index|KeyError"),
-    V("C04", "method-eval-no-attributeerror", EV, ("        except (TypeError, AttributeError) as ex:\n            self.logger.debug(\n                \"method_eval(%r, %r, %s) --> %r\", object, method_ident, exprlist, ex\n            )", "        except TypeError as ex:\n            self.logger.debug(\n                \"method_eval(%r, %r, %s) --> %r\", object, method_ident, exprlist, ex\n            )"), "Evaluator.method_eval|AttributeError"),
+    V("C04", "method-eval-no-attributeerror", EV, ("        except (TypeError, AttributeError) as ex:\n            self.logger.debug(\n                \"method_eval(%r, %r, %s) --> %r\", object, method_ident, exprlist, ex\n            )", "        except TypeError as ex:\n            self.logger.debug(\n                \"method_eval(%r, %r, %s) --> %r\", object, method_ident, exprlist, ex\n            )"), "Evaluator.member_dot_arg|AttributeError"),
     V("C04", "member-dot-arg-index-3", EV, ("            Tuple[lark.Tree, lark.Token], tree.children[:2]\n        )", "            Tuple[lark.Tree, lark.Token], (tree.children[0], tree.children[3])\n        )"), "Evaluator.member_dot_arg|IndexError"),
     V("C04", "parse-no-lexerror", CP, ("        except (LexError, ParseError) as ex:  # pragma: no cover\n            message = ex.args[0].splitlines()[0]\n            raise CELParseError(message, *ex.args)\n", ""), "CELParser.parse"),
     V("C04", "relation-dispatch-missing-key", EV, ("                \"relation_in\": \"_in_\",\n            }[left_op.data]\n            # func = self.functions[op_name]", "            }[left_op.data]\n            # func = self.functions[op_name]"), "Evaluator.relation|KeyError"),
